@@ -308,6 +308,10 @@ K("C07.K.from_bytes_cobs", C06M, "verif_c06::decode_arbitrary", {"C07": "D"}, ne
   fns=["postcard::from_bytes_cobs", "cobs::decode_in_place"], note="every byte string <= 7: no panic / OOB; BadEncoding iff ill-formed, else == plain decoding of the reference COBS payload")
 K("C07.K.take_from_bytes_cobs", C06M, "verif_c06::take_arbitrary", {"C07": "D"}, needs=(REF, PROBES), label="bounded(input<=7 bytes)",
   fns=["postcard::take_from_bytes_cobs", "cobs::decode_in_place_report"], note="... and the remainder begins immediately after the frame's sentinel, untouched")
+for _h, _f in [("take_wrapper_long", "take_from_bytes_cobs"), ("decode_wrapper_long", "from_bytes_cobs")]:
+    K("C07.K." + _h, C06M, "verif_c06::" + _h, {"C07": "D"}, needs=(REF, PROBES), fns=["postcard::" + _f],
+      label="bounded(buffer<=300 bytes; cobs::decode_in_place[_report] replaced by its contract)",
+      note="modular: the wrapper against the CALLEE'S CONTRACT (cobs 0.2.3 decode_raw!: src_used == first zero or len, dst_used <= src_used, or Err): which bytes are plain-decoded, remainder begins right after the sentinel and runs to the end, BadEncoding on Err - for frames far longer than the bounded end-to-end harness reaches")
 
 # ---------------------------------------------------------------- C13 fixint, C10 CRC
 C13M = "postcard/src/lib.rs::verif_c13"
@@ -474,7 +478,7 @@ ASSUMPTIONS = {
     "C04": [A_SERDE, "A-cautious: serde's collection visitors cap pre-allocation by min(hint, 1 MiB / size_of::<T>()); the numeric allocation bound itself is not decided by any contract in reach", "MapAccess::size_hint returns Some(len) unconditionally (maps are outside the property's allocation clause; recorded, not alarmed)"],
     "C05": [A_SERDE, A_PARAM, "capacity running out at every byte position is covered per flavour contract (symbolic capacity), not as one API-level theorem"],
     "C06": ["A-cobs-src: the cobs source verified is the registry copy of cobs 0.2.3 pinned by Cargo.lock, with a cfg(kani) constructor/getter appended in the scratch copy only", "the link between the per-step contract (Kani, arbitrary state) and the whole-message theorem (Verus lemma) is the shared abstract machine M; Cobs<B> relies on B only through the Flavor + IndexMut contract proved for Slice/HVec", A_SERDE],
-    "C07": ["bounded: input length <= 7 (loops are over the input length); cobs::decode_in_place is executed as real code", A_SERDE],
+    "C07": ["bounded: input length <= 7 (loops are over the input length) where cobs::decode_in_place is executed as real code; for buffers up to 300 bytes the cobs decoder is replaced by its contract (assumed: read off cobs 0.2.3 dec.rs, backed by the <=7 end-to-end harness and the spec-level lemma uncobs(cobs(m)) == m)", A_SERDE],
     "C08": ["relative to frame decoding: crate::from_bytes_cobs::<T> is an external_body stub with an uninterpreted spec function (D5), pinned by C06/C07", "stub position_zero (D4) checked by Kani for slices <= 8", "axiom: slices and arrays are at most isize::MAX bytes (Rust language guarantee)", "where-clauses T: Deserialize dropped (D6)"],
     "C09": ["same stubs and axioms as C08", "progress/termination is proved for the documented loop as written in the accumulator's doc comment (exec driver in the unit's trailer)"],
     "C10": ["A-crc-burst: detection of every burst <= width is a property of the catalogue polynomials (crc / crc-catalog dependency), not of code in /repo; decided here only through 'Ok ==> stored checksum == bitwise reference CRC of the consumed bytes'", "crc crate tables are used as compiled; checked against the bitwise reference only on the probe messages", A_SERDE],
